@@ -195,7 +195,27 @@ def run_blind_case(ctx, case):
     ctx.evaluations += 1
 
 
+def discarded_candidates(ctx, case):
+    """Earlier in the same process a decoder threw away malformed job sequences (a job id that
+    occurs more often than the job has operations, an id out of range, a cycle): whatever it
+    raised was caught."""
+    if case["seed"] % 4 != 1:
+        return
+    from job_shop_lib import Schedule
+    rng = random.Random(case["seed"] + 1)
+    instance = gen.build(case["instance"])
+    M, J = instance.num_machines, instance.num_jobs
+    for _ in range(3):
+        seqs = [[rng.randrange(J + (1 if rng.random() < 0.2 else 0)) for _ in range(rng.randint(0, 4))]
+                for _ in range(M)]
+        try:
+            Schedule.from_job_sequences(instance, seqs)
+        except Exception:
+            ctx.count("malformed_sequences_discarded_before_the_injections")
+
+
 def run_dispatcher_case(ctx, case):
+    discarded_candidates(ctx, case)
     if case.get("blind"):
         return run_blind_case(ctx, case)
     rng = random.Random(case["seed"])
